@@ -901,6 +901,35 @@ Section LatitudeR.
     intros Hu Hv H. apply sin_incr_1; lra.
   Qed.
 
+  (** the table hypotheses of the latitude theorems hold for the real sin *)
+  Lemma lat_tables_R n m (tx sx : nat -> R) :
+    (0 < n)%nat -> (0 < m)%nat ->
+    (forall i, (S i < n)%nat -> tx i < tx (S i)) -> - (PI / 2) <= tx 0%nat -> tx (n - 1)%nat <= PI / 2 ->
+    (forall j, (S j < m)%nat -> sx j < sx (S j)) -> - (PI / 2) <= sx 0%nat -> sx (m - 1)%nat <= PI / 2 ->
+    let tb := @lat_bounds R ROps (PI / 2) n tx in
+    let sb := @lat_bounds R ROps (PI / 2) m sx in
+    let st := fun k => sin (tb k) in
+    let ss := fun k => sin (sb k) in
+    @sin_mono R ROps n m tb sb st ss /\
+    (forall i, (i < n)%nat -> st i < st (S i)) /\
+    (forall j, (j < m)%nat -> ss j <= ss (S j)) /\
+    st 0%nat = ss 0%nat /\ st n = ss m.
+  Proof.
+    intros Hn Hm Hti Ht0 Ht1 Hsi Hs0 Hs1 tb sb st ss.
+    assert (Hpi : 0 < PI / 2) by (pose proof PI_RGT_0; lra).
+    destruct (lat_bounds_R_facts (PI / 2) n tx Hpi Hn Hti Ht0 Ht1) as [Tinc Trng].
+    destruct (lat_bounds_R_facts (PI / 2) m sx Hpi Hm Hsi Hs0 Hs1) as [Sinc Srng].
+    fold tb in Tinc, Trng. fold sb in Sinc, Srng.
+    split; [|split; [|split; [|split]]].
+    - repeat split; intros; apply fle_R; apply sin_mono_le; auto; now apply fle_R.
+    - intros i Hi. unfold st. apply sin_increasing_1; try apply Trng; try lia. now apply Tinc.
+    - intros j Hj. unfold ss. apply sin_mono_le; try apply Srng; try lia. left. now apply Sinc.
+    - unfold st, ss, tb, sb. rewrite !lat_bounds_R_eq. reflexivity.
+    - unfold st, ss, tb, sb. rewrite !lat_bounds_R_eq.
+      destruct (Nat.eqb_spec n 0); [lia|]. destruct (Nat.eqb_spec m 0); [lia|].
+      rewrite !Nat.ltb_irrefl. reflexivity.
+  Qed.
+
   Theorem latitude_integral_conserved_R n m (tx sx x : nat -> R) :
     (0 < n)%nat -> (0 < m)%nat ->
     (forall i, (S i < n)%nat -> tx i < tx (S i)) -> - (PI / 2) <= tx 0%nat -> tx (n - 1)%nat <= PI / 2 ->
@@ -914,18 +943,10 @@ Section LatitudeR.
     = @sumn R ROps m (fun j => (ss (S j) - ss j) * x j).
   Proof.
     intros Hn Hm Hti Ht0 Ht1 Hsi Hs0 Hs1 tb sb st ss.
-    assert (Hpi : 0 < PI / 2) by (pose proof PI_RGT_0; lra).
-    destruct (lat_bounds_R_facts (PI / 2) n tx Hpi Hn Hti Ht0 Ht1) as [Tinc Trng].
-    destruct (lat_bounds_R_facts (PI / 2) m sx Hpi Hm Hsi Hs0 Hs1) as [Sinc Srng].
-    fold tb in Tinc, Trng. fold sb in Sinc, Srng.
-    apply (@latitude_integral_conserved R ROps ROrd n m tb sb st ss).
-    - repeat split; intros; apply fle_R; apply sin_mono_le; auto; now apply fle_R.
-    - intros i Hi. apply flt_R. unfold st. apply sin_increasing_1; try apply Trng; try lia. now apply Tinc.
-    - intros j Hj. apply fle_R. unfold ss. apply sin_mono_le; try apply Srng; try lia. left. now apply Sinc.
-    - unfold st, ss, tb, sb. rewrite !lat_bounds_R_eq. reflexivity.
-    - unfold st, ss, tb, sb. rewrite !lat_bounds_R_eq.
-      destruct (Nat.eqb_spec n 0); [lia|]. destruct (Nat.eqb_spec m 0); [lia|].
-      rewrite !Nat.ltb_irrefl. reflexivity.
+    destruct (lat_tables_R n m tx sx Hn Hm Hti Ht0 Ht1 Hsi Hs0 Hs1) as (M & I1 & I2 & E0 & E1).
+    apply (@latitude_integral_conserved R ROps ROrd n m tb sb st ss); auto.
+    - intros i Hi. apply flt_R. now apply I1.
+    - intros j Hj. apply fle_R. now apply I2.
   Qed.
 End LatitudeR.
 
@@ -951,3 +972,459 @@ Section PeriodicR.
     0 < P -> x0 <= x1 -> @per_overlap R ROps P x0 x1 u u = 0.
   Proof. intros HP Hx. unfold_pov. split_le; cbn; lra. Qed.
 End PeriodicR.
+
+(** *** cyclic index shift and telescoping (any field) *)
+Section Cyclic.
+  Context {F : Type} {o : Ops F} {Fc : FieldC o}.
+  Add Field FFcyc : (field_c : FieldTh o).
+
+  Definition nxt (n j : nat) : nat := if Nat.eqb (S j) n then 0%nat else S j.
+  Definition prv (n j : nat) : nat := if Nat.eqb j 0 then (n - 1)%nat else (j - 1)%nat.
+
+  Lemma nxt_lt n j : (j < n)%nat -> (nxt n j < n)%nat.
+  Proof. intros H. unfold nxt. destruct (Nat.eqb_spec (S j) n); lia. Qed.
+  Lemma prv_lt n j : (j < n)%nat -> (prv n j < n)%nat.
+  Proof. intros H. unfold prv. destruct (Nat.eqb_spec j 0); lia. Qed.
+  Lemma nxt_prv n j : (j < n)%nat -> nxt n (prv n j) = j.
+  Proof.
+    intros H. unfold nxt, prv. destruct (Nat.eqb_spec j 0) as [->|Hj].
+    - destruct (Nat.eqb_spec (S (n - 1)) n); lia.
+    - destruct (Nat.eqb_spec (S (j - 1)) n); lia.
+  Qed.
+  Lemma prv_nxt n j : (j < n)%nat -> prv n (nxt n j) = j.
+  Proof.
+    intros H. unfold nxt, prv. destruct (Nat.eqb_spec (S j) n) as [E|E]; cbn [Nat.eqb]; lia.
+  Qed.
+  Lemma nxt_mod n j : (j < n)%nat -> Nat.modulo (j + 1) n = nxt n j.
+  Proof.
+    intros H. unfold nxt. destruct (Nat.eqb_spec (S j) n) as [E|E].
+    - replace (j + 1)%nat with n by lia. apply Nat.mod_same. lia.
+    - rewrite Nat.mod_small; lia.
+  Qed.
+  Lemma prv_mod n j : (j < n)%nat -> Nat.modulo (j + n - 1) n = prv n j.
+  Proof.
+    intros H. unfold prv. destruct (Nat.eqb_spec j 0) as [->|E].
+    - replace (0 + n - 1)%nat with (n - 1)%nat by lia. rewrite Nat.mod_small; lia.
+    - replace (j + n - 1)%nat with ((j - 1) + 1 * n)%nat by lia.
+      rewrite Nat.mod_add by lia. rewrite Nat.mod_small; lia.
+  Qed.
+
+  Lemma sumn_cyclic n (f : nat -> F) : sumn n (fun j => f (nxt n j)) = sumn n f.
+  Proof.
+    destruct n as [|k]; [reflexivity|].
+    rewrite (sumn_S_first k f). cbn [sumn].
+    rewrite (sumn_ext k (fun j => f (nxt (S k) j)) (fun j => f (S j))).
+    2:{ intros j Hj. unfold nxt. destruct (Nat.eqb_spec (S j) (S k)); [lia|reflexivity]. }
+    unfold nxt. rewrite Nat.eqb_refl. ring.
+  Qed.
+
+  (** sum_j (hq j - ha j) when ha (next j) - hq j = d j * X *)
+  Lemma cyclic_telescope n (pv hq ha d : nat -> F) (X : F) :
+    (forall j, (j < n)%nat -> pv j = hq j - ha j) ->
+    (forall j, (j < n)%nat -> ha (nxt n j) - hq j = d j * X) ->
+    sumn n pv = - (sumn n d * X).
+  Proof.
+    intros H1 H2.
+    rewrite (sumn_ext n pv (fun j => (ha (nxt n j) - ha j) - d j * X)).
+    2:{ intros j Hj. rewrite (H1 j Hj). rewrite <- (H2 j Hj). ring. }
+    rewrite sumn_sub, sumn_sub, sumn_scal_r. rewrite (sumn_cyclic n ha). ring.
+  Qed.
+
+  Lemma cyclic_steps n (a w : nat -> F) (P : F) :
+    P <> 0 -> sumn n w = P ->
+    sumn n (fun j => (a (nxt n j) - (a j + w j)) / P) = - (1).
+  Proof.
+    intros HP Hw.
+    rewrite (sumn_ext n _ (fun j => (1 / P) * ((a (nxt n j) - a j) - w j))).
+    2:{ intros j _. cbv beta. field. exact HP. }
+    rewrite sumn_scal_l, sumn_sub, sumn_sub. rewrite (sumn_cyclic n a). rewrite Hw. field. exact HP.
+  Qed.
+End Cyclic.
+
+Section PeriodicPartitionR.
+  Local Open Scope R_scope.
+  Ltac no_dec t := lazymatch t with context [Rle_dec _ _] => fail | _ => idtac end.
+  Ltac split_le :=
+    repeat (match goal with
+            | |- context [Rle_dec ?a ?b] => no_dec a; no_dec b; destruct (Rle_dec a b); cbn; try (exfalso; lra)
+            end).
+
+  Notation clipR := (@clip R ROps).
+  Notation ovR := (@ov R ROps).
+  Notation povR := (@per_overlap R ROps).
+  Notation alignR := (@align_phase R ROps).
+
+  Lemma clipR_hi x0 x1 z : x0 <= x1 -> x1 <= z -> clipR x0 x1 z = x1.
+  Proof. intros H1 H2. unfold clip, fmin, fmax. cbn. unfold Rleb. split_le; lra. Qed.
+  Lemma clipR_lo x0 x1 z : x0 <= x1 -> z <= x0 -> clipR x0 x1 z = x0.
+  Proof. intros H1 H2. unfold clip, fmin, fmax. cbn. unfold Rleb. split_le; lra. Qed.
+
+  Lemma ov_clip_R x0 x1 c d : x0 <= x1 -> c <= d -> ovR x0 x1 c d = clipR x0 x1 d - clipR x0 x1 c.
+  Proof.
+    intros H1 H2.
+    exact (@ov_clip R ROps ROrd x0 x1 c d (proj2 (fle_R _ _) H1) (proj2 (fle_R _ _) H2)).
+  Qed.
+
+  (** alignment: the result is the argument shifted by -P, 0 or +P and lies within P/2 of the target *)
+  Lemma align_R P u t :
+    0 < P -> - (3 * P / 2) < u - t < 3 * P / 2 ->
+    (t - P / 2 <= alignR u t P <= t + P / 2) /\
+    (alignR u t P = u \/ alignR u t P = u - P \/ alignR u t P = u + P).
+  Proof.
+    intros HP Hr. unfold align_phase, fltb, ind, two. cbn. unfold Rleb.
+    replace (1 + 1) with 2 by lra. split_le; lra.
+  Qed.
+
+  (** periodised clip: five images *)
+  Definition HH (P x0 x1 z : R) : R :=
+    clipR x0 x1 (z - 2 * P) + clipR x0 x1 (z - P) + clipR x0 x1 z + clipR x0 x1 (z + P) + clipR x0 x1 (z + 2 * P).
+
+  Lemma pov_as_H P x0 x1 u w :
+    0 < P -> x0 <= x1 -> x1 - x0 <= P -> 0 <= w <= P -> - (3 * P / 2) < u - x0 < 3 * P / 2 ->
+    povR P x0 x1 u (u + w) = HH P x0 x1 (alignR u x0 P + w) - HH P x0 x1 (alignR u x0 P).
+  Proof.
+    intros HP Hx Hwx Hw Hr.
+    destruct (align_R P u x0 HP Hr) as [Ha _].
+    pose proof (@per_overlap_images R ROps ROrd P x0 x1 u (u + w)) as E. cbv zeta in E.
+    remember (alignR u x0 P) as a eqn:Ea.
+    cbn [fadd fsub fopp f0 ROps] in E. rewrite E. clear E.
+    replace (u + (a - u) + - P) with (a - P) by lra.
+    replace (u + w + (a - u) + - P) with (a + w - P) by lra.
+    replace (u + (a - u) + 0) with a by lra.
+    replace (u + w + (a - u) + 0) with (a + w) by lra.
+    replace (u + (a - u) + P) with (a + P) by lra.
+    replace (u + w + (a - u) + P) with (a + w + P) by lra.
+    rewrite !ov_clip_R by lra.
+    unfold HH.
+    rewrite (clipR_hi x0 x1 (a + w + 2 * P)) by lra.
+    rewrite (clipR_hi x0 x1 (a + 2 * P)) by lra.
+    rewrite (clipR_lo x0 x1 (a + w - 2 * P)) by lra.
+    rewrite (clipR_lo x0 x1 (a - 2 * P)) by lra.
+    lra.
+  Qed.
+
+  Lemma HH_shift P x0 x1 z :
+    0 < P -> x0 <= x1 -> x1 - x0 <= P -> x0 - P / 2 <= z <= x0 + P / 2 ->
+    HH P x0 x1 (z + P) = HH P x0 x1 z + (x1 - x0).
+  Proof.
+    intros HP Hx Hw Hz. unfold HH.
+    replace (z + P - 2 * P) with (z - P) by lra.
+    replace (z + P - P) with z by lra.
+    replace (z + P + P) with (z + 2 * P) by lra.
+    rewrite (clipR_hi x0 x1 (z + P + 2 * P)) by lra.
+    rewrite (clipR_lo x0 x1 (z - 2 * P)) by lra.
+    lra.
+  Qed.
+
+  Lemma HH_step P x0 x1 z z' :
+    0 < P -> x0 <= x1 -> x1 - x0 <= P ->
+    x0 - P / 2 <= z <= x0 + 3 * P / 2 -> x0 - P / 2 <= z' <= x0 + P / 2 ->
+    (z' = z - 2 * P \/ z' = z - P \/ z' = z \/ z' = z + P) ->
+    HH P x0 x1 z' - HH P x0 x1 z = (z' - z) / P * (x1 - x0).
+  Proof.
+    intros HP Hx Hw Hz Hz' [E|[E|[E|E]]].
+    - pose proof (HH_shift P x0 x1 z' HP Hx Hw Hz') as S1.
+      pose proof (HH_shift P x0 x1 (z' + P) HP Hx Hw ltac:(lra)) as S2.
+      replace (z' + P + P) with z in S2 by lra.
+      replace ((z' - z) / P) with (-2) by (subst z'; field; lra). lra.
+    - pose proof (HH_shift P x0 x1 z' HP Hx Hw Hz') as S1.
+      replace (z' + P) with z in S1 by lra.
+      replace ((z' - z) / P) with (-1) by (subst z'; field; lra). lra.
+    - subst z'. replace ((z - z) / P) with 0 by (field; lra). lra.
+    - pose proof (HH_shift P x0 x1 z HP Hx Hw ltac:(lra)) as S1.
+      rewrite <- E in S1.
+      replace ((z' - z) / P) with 1 by (subst z'; field; lra). lra.
+  Qed.
+
+  (** a periodic chain of cells: consecutive cells share an end point up to one
+      period, the widths add up to the period *)
+  Definition per_chain (P : R) (m : nat) (lo up : nat -> R) : Prop :=
+    (0 < m)%nat /\
+    (forall j, (j < m)%nat -> lo j <= up j /\ up j - lo j <= P) /\
+    (forall j, (j < m)%nat -> lo (nxt m j) = up j \/ lo (nxt m j) = up j - P) /\
+    @sumn R ROps m (fun j => up j - lo j) = P.
+
+  Theorem periodic_row_total_R P x0 x1 m (lo up : nat -> R) :
+    0 < P -> x0 <= x1 -> x1 - x0 <= P ->
+    per_chain P m lo up ->
+    (forall j, (j < m)%nat -> - (3 * P / 2) < lo j - x0 < 3 * P / 2) ->
+    @sumn R ROps m (fun j => povR P x0 x1 (lo j) (up j)) = x1 - x0.
+  Proof.
+    intros HP Hx Hwx (Hm & Hcell & Hnext & Hsum) Hrng.
+    set (a := fun j => alignR (lo j) x0 P).
+    set (w := fun j => up j - lo j).
+    assert (Ha : forall j, (j < m)%nat ->
+              (x0 - P / 2 <= a j <= x0 + P / 2) /\ (a j = lo j \/ a j = lo j - P \/ a j = lo j + P)).
+    { intros j Hj. unfold a. apply align_R; auto. }
+    pose proof (@cyclic_telescope R ROps RFieldC m
+                  (fun j => povR P x0 x1 (lo j) (up j))
+                  (fun j => HH P x0 x1 (a j + w j)) (fun j => HH P x0 x1 (a j))
+                  (fun j => (a (nxt m j) - (a j + w j)) / P) (x1 - x0)) as T.
+    cbn [fadd fsub fmul fopp fdiv ROps] in T.
+    rewrite T; clear T.
+    - pose proof (@cyclic_steps R ROps RFieldC m a w P) as S.
+      cbn [fadd fsub fmul fopp fdiv f1 ROps] in S. rewrite S; [cbn; lra|cbn; lra|exact Hsum].
+    - intros j Hj. destruct (Hcell j Hj) as [C1 C2].
+      replace (up j) with (lo j + w j) by (unfold w; lra).
+      unfold a. apply pov_as_H; auto. unfold w; lra.
+    - intros j Hj. destruct (Hcell j Hj) as [C1 C2].
+      destruct (Ha j Hj) as [A1 A2]. destruct (Ha (nxt m j) (nxt_lt m j Hj)) as [B1 B2].
+      apply HH_step; auto.
+      + unfold w. lra.
+      + unfold w. destruct (Hnext j Hj) as [N|N]; rewrite N in B2;
+          destruct A2 as [A2|[A2|A2]]; destruct B2 as [B2|[B2|B2]]; rewrite A2 in *; rewrite B2 in *;
+          first [left; lra|right; left; lra|right; right; left; lra|right; right; right; lra|exfalso; lra].
+  Qed.
+
+  (** **** the cells built by _periodic_lower/upper_bounds form a periodic chain *)
+
+  (** points reduced mod P that advance cyclically by steps [g j] in (0, P/2)
+      and go around exactly once *)
+  Definition cyclic_points (P : R) (n : nat) (p g : nat -> R) : Prop :=
+    (0 < n)%nat /\
+    (forall j, (j < n)%nat -> 0 <= p j < P) /\
+    (forall j, (j < n)%nat -> 0 < g j < P / 2) /\
+    (forall j, (j < n)%nat -> p (nxt n j) = p j + g j \/ p (nxt n j) = p j + g j - P) /\
+    @sumn R ROps n g = P.
+
+  Lemma align_near P v t :
+    0 < P -> - (P / 2) < v - t < P / 2 ->
+    alignR v t P = v /\ alignR (v - P) t P = v /\ alignR (v + P) t P = v.
+  Proof.
+    intros HP Hr. unfold align_phase, fltb, ind, two. cbn. unfold Rleb.
+    replace (1 + 1) with 2 by lra. repeat split; split_le; lra.
+  Qed.
+
+  Section Cells.
+    Variables (P : R) (n : nat) (p g : nat -> R).
+    Hypothesis HP : 0 < P.
+    Hypothesis Hcyc : cyclic_points P n p g.
+
+    Let lo := @per_lower R ROps n P p.
+    Let up := @per_upper R ROps n P p.
+
+    Lemma upper_eq j : (j < n)%nat -> up j = p j + g j / 2.
+    Proof.
+      destruct Hcyc as (Hn & Hp & Hg & Hstep & Hsum). intros Hj.
+      unfold up, per_upper, roll_m1. rewrite (nxt_mod n j Hj). pose proof (Hg j Hj) as G.
+      destruct (align_near P (p j + g j) (p j) HP ltac:(lra)) as (A1 & A2 & _).
+      destruct (Hstep j Hj) as [E|E]; rewrite E; [rewrite A1|rewrite A2]; unfold two; cbn; lra.
+    Qed.
+
+    Lemma lower_next_eq j : (j < n)%nat -> lo (nxt n j) = p (nxt n j) - g j / 2.
+    Proof.
+      destruct Hcyc as (Hn & Hp & Hg & Hstep & Hsum). intros Hj.
+      unfold lo, per_lower, roll_p1. rewrite (prv_mod n (nxt n j) (nxt_lt n j Hj)).
+      rewrite (prv_nxt n j Hj). pose proof (Hg j Hj) as G.
+      set (t := p (nxt n j)).
+      destruct (align_near P (t - g j) t HP ltac:(lra)) as (A1 & _ & A3).
+      destruct (Hstep j Hj) as [E|E]; fold t in E.
+      - replace (p j) with (t - g j) by lra. rewrite A1. unfold two; cbn; lra.
+      - replace (p j) with (t - g j + P) by lra. rewrite A3. unfold two; cbn; lra.
+    Qed.
+
+    Lemma lower_eq j : (j < n)%nat -> lo j = p j - g (prv n j) / 2.
+    Proof.
+      intros Hj. pose proof (lower_next_eq (prv n j) (prv_lt n j Hj)) as E.
+      now rewrite (nxt_prv n j Hj) in E.
+    Qed.
+
+    Lemma cell_facts j : (j < n)%nat ->
+      lo j < up j /\ up j - lo j < P / 2 /\ - (P / 4) < lo j < P.
+    Proof.
+      destruct Hcyc as (Hn & Hp & Hg & Hstep & Hsum). intros Hj.
+      rewrite (upper_eq j Hj), (lower_eq j Hj).
+      pose proof (Hg j Hj). pose proof (Hg (prv n j) (prv_lt n j Hj)). pose proof (Hp j Hj). lra.
+    Qed.
+
+    Lemma cells_chain : per_chain P n lo up.
+    Proof.
+      pose proof Hcyc as (Hn & Hp & Hg & Hstep & Hsum).
+      split; [exact Hn|split; [|split]].
+      - intros j Hj. destruct (cell_facts j Hj) as (C1 & C2 & _). lra.
+      - intros j Hj. rewrite (lower_next_eq j Hj), (upper_eq j Hj).
+        destruct (Hstep j Hj) as [E|E]; rewrite E; [left|right]; lra.
+      - rewrite (@sumn_ext R ROps n _ (fun j => (1 / 2) * g j + (1 / 2) * g (prv n j))).
+        2:{ intros j Hj. cbv beta. rewrite (upper_eq j Hj), (lower_eq j Hj). cbn. lra. }
+        pose proof (@sumn_add R ROps RFieldC n (fun j => (1 / 2) * g j) (fun j => (1 / 2) * g (prv n j))) as E1.
+        cbn [fadd fmul ROps] in E1. rewrite E1. clear E1.
+        pose proof (@sumn_scal_l R ROps RFieldC n (1 / 2) g) as E2.
+        cbn [fadd fmul ROps] in E2. rewrite E2. clear E2.
+        pose proof (@sumn_scal_l R ROps RFieldC n (1 / 2) (fun j => g (prv n j))) as E3.
+        cbn [fadd fmul ROps] in E3. rewrite E3. clear E3.
+        pose proof (@sumn_cyclic R ROps RFieldC n (fun j => g (prv n j))) as E4. cbv beta in E4.
+        rewrite (@sumn_ext R ROps n (fun j => g (prv n (nxt n j))) g) in E4.
+        2:{ intros j Hj. now rewrite (prv_nxt n j Hj). }
+        rewrite <- E4. rewrite Hsum. cbn. lra.
+    Qed.
+  End Cells.
+
+  (** symmetry of the coded periodic overlap (case analysis + lra, ~30 s) *)
+  Lemma pov_sym_R (P x0 x1 y0 y1 : R) :
+    0 < P -> x0 <= x1 -> y0 <= y1 -> x1 - x0 <= P / 2 -> y1 - y0 <= P / 2 ->
+    - (3 * P / 2) < y0 - x0 < 3 * P / 2 ->
+    povR P x0 x1 y0 y1 = povR P y0 y1 x0 x1.
+  Proof.
+    intros HP Hx Hy Hwx Hwy Hr.
+    unfold per_overlap, align_phase, fmax, fmin, fltb, ind, two; cbn; unfold Rleb.
+    replace (1 + 1) with 2 by lra. split_le; cbn; lra.
+  Qed.
+
+  (** ** the periodic partition identity *)
+  Theorem lon_partition_R P n m (tp gt sp gs : nat -> R) :
+    0 < P -> cyclic_points P n tp gt -> cyclic_points P m sp gs ->
+    @lon_partition R ROps P n m tp sp.
+  Proof.
+    intros HP Ht Hs.
+    pose proof (cell_facts P n tp gt HP Ht) as TF. pose proof (cell_facts P m sp gs HP Hs) as SF.
+    split.
+    - intros i Hi. destruct (TF i Hi) as (T1 & T2 & T3).
+      change (@sumn R ROps m (fun j => povR P (@per_lower R ROps n P tp i) (@per_upper R ROps n P tp i)
+                                            (@per_lower R ROps m P sp j) (@per_upper R ROps m P sp j))
+              = @per_upper R ROps n P tp i - @per_lower R ROps n P tp i).
+      apply periodic_row_total_R; try lra.
+      + now apply (cells_chain P m sp gs).
+      + intros j Hj. destruct (SF j Hj) as (S1 & S2 & S3). lra.
+    - intros j Hj. destruct (SF j Hj) as (S1 & S2 & S3).
+      change (@sumn R ROps n (fun i => povR P (@per_lower R ROps n P tp i) (@per_upper R ROps n P tp i)
+                                            (@per_lower R ROps m P sp j) (@per_upper R ROps m P sp j))
+              = @per_upper R ROps m P sp j - @per_lower R ROps m P sp j).
+      rewrite (sumn_ext n _ (fun i => povR P (@per_lower R ROps m P sp j) (@per_upper R ROps m P sp j)
+                                            (@per_lower R ROps n P tp i) (@per_upper R ROps n P tp i))).
+      2:{ intros i Hi. cbv beta. destruct (TF i Hi) as (T1 & T2 & T3). apply pov_sym_R; lra. }
+      apply periodic_row_total_R; try lra.
+      + now apply (cells_chain P n tp gt).
+      + intros i Hi. destruct (TF i Hi) as (T1 & T2 & T3). lra.
+  Qed.
+
+  (** strictly increasing longitudes with all cyclic gaps in (0, P/2), reduced
+      mod P with validated quotients, are cyclic points *)
+  Lemma IZR_small (z : Z) P : 0 < P -> - (3 * P / 2) < IZR z * P < P -> z = 0%Z \/ z = (-1)%Z.
+  Proof.
+    intros HP [H1 H2].
+    destruct (Z_lt_le_dec z (-1)) as [L|L].
+    - exfalso. assert (z <= -2)%Z by lia. apply IZR_le in H. nra.
+    - destruct (Z_lt_le_dec 0 z) as [G|G].
+      + exfalso. assert (1 <= z)%Z by lia. apply IZR_le in H. nra.
+      + lia.
+  Qed.
+
+  Definition gaps (P : R) (n : nat) (x : nat -> R) (j : nat) : R :=
+    if Nat.eqb (S j) n then x 0%nat + P - x (n - 1)%nat else x (S j) - x j.
+
+  Theorem cyclic_points_of_increasing P n (x : nat -> R) (k : nat -> Z) :
+    0 < P -> (0 < n)%nat ->
+    (forall j, (j < n)%nat -> 0 < gaps P n x j < P / 2) ->
+    (forall j, (j < n)%nat -> 0 <= x j - IZR (k j) * P < P) ->
+    cyclic_points P n (fun j => @pmod R ROps P (k j) (x j)) (gaps P n x).
+  Proof.
+    intros HP Hn Hg Hk.
+    assert (Ep : forall j, @pmod R ROps P (k j) (x j) = x j - IZR (k j) * P) by reflexivity.
+    split; [exact Hn|split; [|split; [exact Hg|split]]].
+    - intros j Hj. rewrite Ep. now apply Hk.
+    - intros j Hj. rewrite !Ep. pose proof (Hg j Hj) as G. pose proof (Hk j Hj) as Kj.
+      pose proof (Hk (nxt n j) (nxt_lt n j Hj)) as Kn.
+      unfold gaps in *. unfold nxt in *. destruct (Nat.eqb_spec (S j) n) as [E|E].
+      + replace (n - 1)%nat with j in * by lia.
+        destruct (IZR_small (k j - k 0%nat - 1)%Z P HP) as [Z|Z].
+        * rewrite minus_IZR, minus_IZR. lra.
+        * left. apply (f_equal IZR) in Z. rewrite minus_IZR, minus_IZR in Z.
+          assert (Zk : IZR (k j) = IZR (k 0%nat) + 1) by lra. rewrite Zk. lra.
+        * right. apply (f_equal IZR) in Z. rewrite minus_IZR, minus_IZR in Z.
+          assert (Zk : IZR (k j) = IZR (k 0%nat)) by lra. rewrite Zk. lra.
+      + destruct (IZR_small (k j - k (S j))%Z P HP) as [Z|Z].
+        * rewrite minus_IZR. lra.
+        * left. apply (f_equal IZR) in Z. rewrite minus_IZR in Z.
+          assert (Zk : IZR (k j) = IZR (k (S j))) by lra. rewrite Zk. lra.
+        * right. apply (f_equal IZR) in Z. rewrite minus_IZR in Z.
+          assert (Zk : IZR (k j) = IZR (k (S j)) - 1) by lra. rewrite Zk. lra.
+    - destruct n as [|q]; [lia|]. cbn [sumn].
+      rewrite (sumn_ext q (gaps P (S q) x) (fun j => x (S j) - x j)).
+      2:{ intros j Hj. unfold gaps. destruct (Nat.eqb_spec (S j) (S q)); [lia|reflexivity]. }
+      pose proof (@sumn_telescope R ROps RFieldC q x) as T. cbn [fsub ROps] in T. rewrite T.
+      unfold gaps. rewrite Nat.eqb_refl. replace (S q - 1)%nat with q by lia. cbn. lra.
+  Qed.
+
+  (** ** longitude rows and horizontal conservation without the partition hypothesis *)
+  Theorem longitude_rows_R P n m (tp gt sp gs : nat -> R) i :
+    0 < P -> cyclic_points P n tp gt -> cyclic_points P m sp gs -> (i < n)%nat ->
+    @row_total R ROps m (@lon_overlap R ROps P n m tp sp) i = @cell_width R ROps n P tp i /\
+    0 < @cell_width R ROps n P tp i /\
+    (forall j, (j < m)%nat -> 0 <= @lon_weights R ROps P n m tp sp i j) /\
+    @sumn R ROps m (@lon_weights R ROps P n m tp sp i) = 1 /\
+    (forall c, @apply_weights R ROps m (@lon_weights R ROps P n m tp sp) (fun _ => c) i = c) /\
+    (forall x lo hi, (forall j, (j < m)%nat -> lo <= x j <= hi) ->
+        lo <= @apply_weights R ROps m (@lon_weights R ROps P n m tp sp) x i <= hi).
+  Proof.
+    intros HP Ht Hs Hi.
+    destruct (lon_partition_R P n m tp gt sp gs HP Ht Hs) as [Hrow _].
+    destruct (cell_facts P n tp gt HP Ht i Hi) as (T1 & T2 & T3).
+    assert (W : 0 < @cell_width R ROps n P tp i)
+      by (change (0 < @per_upper R ROps n P tp i - @per_lower R ROps n P tp i); lra).
+    assert (Hnz : @row_total R ROps m (@lon_overlap R ROps P n m tp sp) i <> 0%F).
+    { rewrite (Hrow i Hi). change (@cell_width R ROps n P tp i <> 0). lra. }
+    destruct (@longitude_rows_partial R ROps ROrd P n m tp sp i Hnz) as (R1 & R2 & R3 & R4).
+    split; [now apply Hrow|split; [exact W|split; [|split; [exact R2|split; [exact R3|]]]]].
+    - intros j Hj. apply fle_R. now apply R1.
+    - intros x lo hi Hx.
+      destruct (R4 x lo hi) as [L U].
+      + intros j Hj. destruct (Hx j Hj). split; now apply fle_R.
+      + split; now apply fle_R.
+  Qed.
+
+  Theorem horizontal_integral_conserved_R
+          P na nb (tp gt sp gs : nat -> R) nc nd (tb sb st ss : nat -> R) (f : nat -> nat -> R) :
+    0 < P -> cyclic_points P na tp gt -> cyclic_points P nb sp gs ->
+    @sin_mono R ROps nc nd tb sb st ss ->
+    (forall c, (c < nc)%nat -> st c < st (S c)) ->
+    (forall d, (d < nd)%nat -> ss d <= ss (S d)) ->
+    st 0%nat = ss 0%nat -> st nc = ss nd ->
+    @sumn R ROps na (fun a => @sumn R ROps nc (fun c =>
+        @cell_width R ROps na P tp a * (st (S c) - st c) *
+        @mean2 R ROps nb nd (@lon_weights R ROps P na nb tp sp)
+               (@normalize_rows R ROps nd (@lat_overlap R ROps tb sb st ss)) f a c))
+    = @sumn R ROps nb (fun b => @sumn R ROps nd (fun d =>
+        @cell_width R ROps nb P sp b * (ss (S d) - ss d) * f b d)).
+  Proof.
+    intros HP Ht Hs Hm Hst Hss E0 E1.
+    apply (@horizontal_integral_conserved_partial R ROps ROrd P na nb tp sp nc nd tb sb st ss f); auto.
+    - now apply (lon_partition_R P na nb tp gt sp gs).
+    - intros a Ha. destruct (cell_facts P na tp gt HP Ht a Ha) as (T1 & T2 & T3).
+      change (@per_upper R ROps na P tp a - @per_lower R ROps na P tp a <> 0). lra.
+    - intros c Hc. apply flt_R. now apply Hst.
+    - intros d Hd. apply fle_R. now apply Hss.
+  Qed.
+End PeriodicPartitionR.
+
+(** *** the horizontal regridder over the reals: real sin, longitudes given as
+    strictly increasing points reduced mod the period *)
+Section HorizontalR.
+  Local Open Scope R_scope.
+  Theorem horizontal_integral_conserved_real
+          P na nb (tlon slon : nat -> R) (kt ks : nat -> Z) nc nd (tlat slat : nat -> R) (f : nat -> nat -> R) :
+    0 < P -> (0 < na)%nat -> (0 < nb)%nat -> (0 < nc)%nat -> (0 < nd)%nat ->
+    (forall j, (j < na)%nat -> 0 < gaps P na tlon j < P / 2) ->
+    (forall j, (j < na)%nat -> 0 <= tlon j - IZR (kt j) * P < P) ->
+    (forall j, (j < nb)%nat -> 0 < gaps P nb slon j < P / 2) ->
+    (forall j, (j < nb)%nat -> 0 <= slon j - IZR (ks j) * P < P) ->
+    (forall i, (S i < nc)%nat -> tlat i < tlat (S i)) -> - (PI / 2) <= tlat 0%nat -> tlat (nc - 1)%nat <= PI / 2 ->
+    (forall j, (S j < nd)%nat -> slat j < slat (S j)) -> - (PI / 2) <= slat 0%nat -> slat (nd - 1)%nat <= PI / 2 ->
+    let tp := fun j => @pmod R ROps P (kt j) (tlon j) in
+    let sp := fun j => @pmod R ROps P (ks j) (slon j) in
+    let st := fun k => sin (@lat_bounds R ROps (PI / 2) nc tlat k) in
+    let ss := fun k => sin (@lat_bounds R ROps (PI / 2) nd slat k) in
+    @sumn R ROps na (fun a => @sumn R ROps nc (fun c =>
+        @cell_width R ROps na P tp a * (st (S c) - st c) *
+        @mean2 R ROps nb nd (@lon_weights R ROps P na nb tp sp)
+               (@lat_weights R ROps (PI / 2) nc nd tlat slat st ss) f a c))
+    = @sumn R ROps nb (fun b => @sumn R ROps nd (fun d =>
+        @cell_width R ROps nb P sp b * (ss (S d) - ss d) * f b d)).
+  Proof.
+    intros HP Hna Hnb Hnc Hnd Gt Kt Gs Ks T1 T2 T3 S1 S2 S3 tp sp st ss.
+    destruct (lat_tables_R nc nd tlat slat Hnc Hnd T1 T2 T3 S1 S2 S3) as (M & I1 & I2 & E0 & E1).
+    apply (horizontal_integral_conserved_R P na nb tp (gaps P na tlon) sp (gaps P nb slon) nc nd
+             (@lat_bounds R ROps (PI / 2) nc tlat) (@lat_bounds R ROps (PI / 2) nd slat) st ss f); auto.
+    - now apply cyclic_points_of_increasing.
+    - now apply cyclic_points_of_increasing.
+  Qed.
+End HorizontalR.
